@@ -21,17 +21,20 @@ META = {
     "level_text": (
         "Proved for ALL pH and pKa (rationals), the six built-in force fields, the three chain positions, all nine groups and every residue "
         "type carrying them: apply_pka_values leaves the group protonated iff pH < pKa when the wanted state is parameterisable there, else "
-        "keeps its default state with a warning (C06_decide_spec); the state produced for every residue type x position x combination of "
-        "decided sites loses no atom the untitrated residue keeps (C06_never_dropped; support is computed from the force-field/topology "
-        "tables regenerated from the repo on every run, not listed); for ALL residue lists and pKa assignments the total formal charge of "
-        "the assigned states never increases with pH (C06_charge_monotone_formal, every force field and position). With pairwise distinct "
-        "keys every site is decided from its own table entry (C06_key_collision_guard). These follow the code after the repair of the guard "
-        "lists (finding F10, fixed; the old witnesses are regression cases run first). PARTIAL: the output-charge monotonicity "
-        "(C06_charge_monotone_output_partial) and the support statements exclude one-residue chains (position N+C), which are covered by the "
-        "exhaustive correspondence and the end-to-end search only. REFUTED on the code as it is, witness replayed every run: 'termini are "
-        "titrated from their pKa rows' (F11: main.py drops the N+/C- rows, so C06_decide_spec holds for apply_pka_values given its dict but "
-        "the pipeline never supplies the terminus entries). Not proved: PROPKA itself; that hydrogen optimisation keeps the chosen state and "
-        "the written charge equals the formal charge is observed end to end on builder peptides."
+        "keeps its default state with a warning (C06_decide_spec); the produced state loses no atom the untitrated residue keeps "
+        "(C06_never_dropped; C06_decided_state_parameterised for all FOUR positions: an atom written without parameters after titration is "
+        "written without them untitrated too, or - one-residue chain - is one NEUTRAL-CTERM adds). OUTPUT charge, full: for ALL residue "
+        "lists (one-residue chains included), ALL pKa assignments and pH1 <= pH2 the sum of the EXACT force-field charges (FF_<ff>.built, "
+        "C01) over the final atom sets of the produced states (C02's state rows; unparameterised atoms omitted as apply_force_field omits "
+        "them) never increases (C06_charge_monotone_output); a completely written state carries exactly its formal charge by C02's "
+        "state_exact check (C06_output_is_formal; exception: C02's finding PARSE NEUTRAL-CPRO). For ALL integer residue numbers and chain "
+        "ids without outer blanks the dict key main.py builds for a row is the key apply_pka_values looks up (C06_row_key_is_lookup_key, "
+        "C06_row_reaches_site); with pairwise distinct keys every site is decided from its own entry (C06_key_collision_guard). Support and "
+        "charges are computed from tables regenerated from the repo on every run. REFUTED on the code as it is, witness replayed every run: "
+        "'termini are titrated from their pKa rows' (F11: main.py drops the N+/C- rows; C06_decide_spec holds for apply_pka_values given "
+        "its dict, the pipeline never supplies the terminus entries). Not proved, observed end to end: PROPKA itself; that hydrogen "
+        "optimisation keeps the chosen state; bridged cysteines and residues pre-named in a variant state (outside the model's residue "
+        "types; covered by the decision-level comparison and the PROPKA sweeps)."
     ),
     "level_note": (
         "Trusted: Coq kernel+vm_compute; generators gen/ff_tables.py, gen/topology.py, gen/titration.py (set_state table taken from real "
@@ -49,9 +52,17 @@ THEOREMS = [
     "C06_naming_matches_code",
     "C06_charge_monotone_formal",
     "C06_formal_defined",
-    "C06_charge_monotone_output_partial",
+    "C06_output_defined",
+    "C06_state_rows_match_names",
+    "C06_charge_monotone_output",
+    "C06_decided_state_parameterised",
+    "C06_decided_state_fully_parameterised",
+    "C06_output_is_formal",
+    "C06_one_residue_chain_as_is",
     "C06_key_collision_guard",
     "C06_key_collision_refuted",
+    "C06_row_key_is_lookup_key",
+    "C06_row_reaches_site",
     "C06_rows_filtered",
     "C06_pipeline_terminus_refuted",
     "C06_nonvacuous",
@@ -140,15 +151,62 @@ def pos_of(res) -> str:
 
 
 _PEP_CACHE = {}
+LABEL_W = (3, 4, 2)  # field widths of PROPKA's group label; re-derived from real PROPKA rows on every run
+
+
+class Seq(tuple):
+    """A peptide: residue names + first residue number, chain id, insertion code."""
+
+    start = 1
+    chain = "A"
+    icode = ""
+
+
+def mkseq(seq, start=1, chain="A", icode=""):
+    s = Seq(seq)
+    s.start, s.chain, s.icode = start, chain, icode
+    return s
+
+
+class Struct:
+    """A multi-chain structure given as PDB text."""
+
+    def __init__(self, name, pdb):
+        self.name, self.pdb = name, pdb
+
+
+def skey(seq):
+    if isinstance(seq, Struct):
+        return ("struct", seq.name)
+    return (tuple(seq), getattr(seq, "start", 1), getattr(seq, "chain", "A"), getattr(seq, "icode", ""))
 
 
 def peptide_pdb(seq):
     from harness import builder as B
 
-    key = tuple(seq)
+    if isinstance(seq, Struct):
+        return seq.pdb
+    key = skey(seq)
     if key not in _PEP_CACHE:
-        _PEP_CACHE[key] = B.to_pdb(B.build_peptide(list(seq)))
+        _PEP_CACHE[key] = B.to_pdb(B.build_peptide(list(seq), start=key[1], chain=key[2], icode=key[3]))
     return _PEP_CACHE[key]
+
+
+def structures():
+    """Mixed structures: two chains, a disulfide, residues pre-named in a variant state."""
+    from harness import builder as B
+
+    if "structs" not in _PEP_CACHE:
+        a = B.build_peptide(["ALA", "ASP", "LYS", "HIS", "ALA"], chain="A", start=1)
+        b = B.build_peptide(["TYR", "GLU", "CYS", "ARG"], chain="B", start=50, origin=(40.0, 0.0, 0.0))
+        da, db = B.disulfide_pair(seq=("LYS", "CYS", "HIS"))
+        pre = B.build_peptide(["ALA", "ASH", "LYN", "CYM", "HIP", "GLH", "TYM", "ASP", "LYS", "ALA"], chain="A", start=1)
+        _PEP_CACHE["structs"] = {
+            "two_chains": Struct("two_chains", B.to_pdb([a, b])),
+            "disulfide": Struct("disulfide", B.to_pdb([da, db])),
+            "prenamed": Struct("prenamed", B.to_pdb(pre)),
+        }
+    return _PEP_CACHE["structs"]
 
 
 def residue_records(bio):
@@ -287,6 +345,8 @@ def random_key_cases(ctx, n):
             seq = [rng.choice(TITRATABLE)] * rng.randint(2, 4)
         s = B.setup_biomolecule(peptide_pdb(seq))
         pool.append(s["biomolecule"])
+    for st in structures().values():  # several chains, a disulfide, residues pre-named in a variant state
+        pool.append(B.setup_biomolecule(st.pdb)["biomolecule"])
     cases = []
     for k in range(n):
         bio = rng.choice(pool)
@@ -453,17 +513,56 @@ def split_ffname(ffname):
     return "", ffname
 
 
-def make_rows(seq, pkas, chain="A"):
-    """Rows as main.run_propka returns them. pkas: {(index, group): decimal str}."""
+def propka_label_py(rtype, num, chain):
+    w1, w2, w3 = LABEL_W
+    return f"{rtype:<{w1}s}{num:>{w2}d}{chain:>{w3}s}"
+
+
+def make_rows(seq, pkas, chain=None):
+    """Rows as main.run_propka returns them (label in PROPKA's own layout, widths
+    learned from real PROPKA rows). pkas: {(index, group): decimal str}."""
+    start = getattr(seq, "start", 1)
+    chain = chain if chain is not None else getattr(seq, "chain", "A")
     rows = []
     for (i, g), v in sorted(pkas.items(), key=lambda kv: (kv[0][0], kv[0][1])):
         rtype = g if g in ("N+", "C-") else seq[i]
         rows.append({
-            "res_num": i + 1, "ins_code": " ", "res_name": seq[i], "chain_id": chain,
-            "group_label": f"{rtype:<3s}{i + 1:>4d}{chain:>2s}", "group_type": "N+" if g == "N+" else "COO" if g in ("C-", "ASP", "GLU") else g,
+            "res_num": start + i, "ins_code": getattr(seq, "icode", "") or " ", "res_name": seq[i], "chain_id": chain,
+            "group_label": propka_label_py(rtype, start + i, chain), "group_type": "N+" if g == "N+" else "COO" if g in ("C-", "ASP", "GLU") else g,
             "pKa": float(v), "model_pKa": float(v), "buried": 0.0, "coupled_group": None, "_dec": v, "_group": g,
         })
     return rows
+
+
+def rows_from_df(df):
+    """Rows of a REAL run_propka result, annotated for the oracle."""
+    rows = []
+    for row in df:
+        g = row["group_label"][:3].strip()
+        if g not in ("N+", "C-"):
+            g = row["res_name"]
+        if g not in DEFAULT_PROT:
+            continue
+        r = dict(row)
+        r["_dec"] = f"{row['pKa']:.6f}"
+        r["_group"] = g
+        rows.append(r)
+    return rows
+
+
+def parse_pqr_ws(text):
+    """ATOM/HETATM lines of a PQR written with --keep-chain --whitespace (an insertion code is its own field)."""
+    out = []
+    for ln in text.splitlines():
+        if not ln.startswith(("ATOM", "HETATM")):
+            continue
+        f = ln.split()
+        x, y, z, q, r = map(float, f[-5:])
+        head = f[:-5]
+        if len(head) not in (6, 7):
+            raise ValueError(f"unparsable PQR line: {ln!r}")
+        out.append({"name": head[2], "resname": head[3], "chain": head[4], "resseq": head[5], "icode": head[6] if len(head) == 7 else "", "charge": q})
+    return out
 
 
 def e2e(ctx, seq, ff, ph, rows, cache={}):  # noqa: B006 - deliberate per-process cache
@@ -472,16 +571,18 @@ def e2e(ctx, seq, ff, ph, rows, cache={}):  # noqa: B006 - deliberate per-proces
     from pdb2pqr import biomolecule as pbio
     from pdb2pqr import main as pmain
 
-    key = (tuple(seq), ff, ph, json.dumps([(r["group_label"], r["_dec"]) for r in rows]) if rows is not None else None)
+    real = isinstance(rows, str) and rows == "real"
+    key = (skey(seq), ff, ph, "real" if real else json.dumps([(r["group_label"], r["_dec"]) for r in rows]) if rows is not None else None)
     if key in cache:
         return cache[key]
-    args = [f"--ff={ff}"]
+    args = [f"--ff={ff}", "--keep-chain", "--whitespace"]
     cap = {}
     orig_rp, orig_ap = pmain.run_propka, pbio.Biomolecule.apply_pka_values
     if rows is not None:
         args += ["--titration-state-method=propka", f"--with-ph={ph}"]
-        clean = [{k: v for k, v in r.items() if not k.startswith("_")} for r in rows]
-        pmain.run_propka = lambda a, b: (clean, "stub")
+        if not real:
+            clean = [{k: v for k, v in r.items() if not k.startswith("_")} for r in rows]
+            pmain.run_propka = lambda a, b: (clean, "stub")
 
         def wrapped(self, force_field, ph_, pkadic):
             cap["ff"], cap["ph"], cap["dict"] = force_field, ph_, dict(pkadic)
@@ -492,21 +593,24 @@ def e2e(ctx, seq, ff, ph, rows, cache={}):  # noqa: B006 - deliberate per-proces
         r = B.run_pdb2pqr(peptide_pdb(seq), args, workdir=ctx.scratch_dir() / "e2e")
     finally:
         pmain.run_propka, pbio.Biomolecule.apply_pka_values = orig_rp, orig_ap
-    obs = {"exc": None, "cap": cap, "warnings": [m.split(":", 2)[2] for m in r["messages"] if m.startswith("WARNING")]}
+    obs = {"exc": None, "cap": cap, "rows": [] if (real or rows is None) else rows, "warnings": [m.split(":", 2)[2] for m in r["messages"] if m.startswith("WARNING")]}
     if r["exc"] is not None or r["result"] is None or r["pqr_text"] is None:
         obs["exc"] = f"{type(r['exc']).__name__}: {r['exc']}" if r["exc"] is not None else "no output"
         crit = [m for m in r["messages"] if m.startswith("CRITICAL")]
         obs["critical"] = crit[:2]
     else:
         _missed, _df, bio = r["result"]
-        atoms = B.parse_pqr(r["pqr_text"])
-        present = {(int(a["resseq"]), a["name"]) for a in atoms}
+        if real:
+            obs["rows"] = rows_from_df(_df)
+        atoms = parse_pqr_ws(r["pqr_text"])
+        present = {(a["chain"], int(a["resseq"]), a["name"]) for a in atoms}
         obs["charge"] = sum(a["charge"] for a in atoms)
         obs["residues"] = [
-            {"name": x.name, "seq": int(x.res_seq), "ffname": x.ffname, "patches": list(x.patches), "pos": pos_of(x), "atoms": [a.name for a in x.atoms]}
+            {"name": x.name, "seq": int(x.res_seq), "chain": x.chain_id, "ffname": x.ffname, "patches": list(x.patches), "pos": pos_of(x),
+             "ss": bool(getattr(x, "ss_bonded", False)) or "CYX" in x.patches, "atoms": [a.name for a in x.atoms]}
             for x in bio.residues
         ]
-        obs["missing"] = sorted((x["seq"], a) for x in obs["residues"] for a in x["atoms"] if (x["seq"], a) not in present)
+        obs["missing"] = sorted((x["chain"], x["seq"], a) for x in obs["residues"] for a in x["atoms"] if (x["chain"], x["seq"], a) not in present)
     cache[key] = obs
     return obs
 
@@ -552,43 +656,77 @@ def state_names(group, res, wanted):
     return prefix + (OWN_PATCH[group] if switched else group), prefix + group
 
 
+VARIANT_OF = {"ASH": "ASP", "GLH": "GLU", "LYN": "LYS", "CYM": "CYS", "CYX": "CYS", "TYM": "TYR", "HIP": "HIS", "HID": "HIS", "HIE": "HIS", "AR0": "ARG"}
+
+
+def label_of(seq):
+    return seq.name if isinstance(seq, Struct) else "-".join(seq) + (f"@{seq.start}{seq.chain}{seq.icode}" if isinstance(seq, Seq) else "")
+
+
+def case_of(seq, ff, ph, rows, real):
+    if isinstance(seq, Struct):
+        c = {"kind": "struct", "name": seq.name, "ff": ff, "ph": ph}
+    else:
+        c = {"kind": "e2e", "seq": list(seq), "start": getattr(seq, "start", 1), "chain": getattr(seq, "chain", "A"), "icode": getattr(seq, "icode", ""), "ff": ff, "ph": ph}
+    if real:
+        c["real"] = True
+    else:
+        c["pkas"] = [[r["res_num"] - getattr(seq, "start", 1), r["_group"], r["_dec"]] for r in rows] if not isinstance(seq, Struct) else None
+        c["rows"] = [[r["res_name"], r["res_num"], r["chain_id"], r["_group"], r["_dec"]] for r in rows]
+    return c
+
+
 def judge_run(ctx, probe, seq, ff, ph, rows, tag):
-    """Model-independent oracle on one titrated run. Reports through ctx.fail."""
+    """Model-independent oracle on one titrated run. Reports through ctx.fail.
+    rows: stub rows (make_rows) or "real" (PROPKA itself supplies them)."""
+    real = isinstance(rows, str)
     obs = e2e(ctx, seq, ff, ph, rows)
     base = e2e(ctx, seq, ff, None, None)
-    case = {"kind": "e2e", "seq": list(seq), "ff": ff, "ph": ph, "pkas": [[r["res_num"] - 1, r["_group"], r["_dec"]] for r in rows]}
+    rows = obs["rows"] if real else rows
+    case = case_of(seq, ff, ph, rows, real)
+    name = label_of(seq)
     phd = Decimal(ph)
     has_term_rows = any(r["_group"] in ("N+", "C-") for r in rows)
     term_keys_passed = any(k.startswith(("N+", "C-")) for k in obs["cap"].get("dict", {}))
     if obs["exc"] is not None:
         if base["exc"] is not None:
-            # the untitrated run of this peptide fails as well (e.g. PEOEPB has no complete CGLY): not titration's doing
+            # the untitrated run of this structure fails as well (e.g. PEOEPB has no complete CGLY): not titration's doing
             ctx.count(f"baseline-aborts:{ff}")
             return obs
-        # diagnose at decision level which residue ends in an unparameterisable state
-        sig = diagnose_abort(ctx, probe, seq, ff, ph, rows)
-        ctx.evaluated((tag, ff, tuple(seq), ph, "abort"), True)
-        ctx.fail(sig, f"{ff} {'-'.join(seq)} pH {ph}: run aborted after titration ({obs['exc']}; {obs.get('critical')})", case)
+        sig = diagnose_abort(ctx, probe, seq, ff, ph, rows) if not real else {"defect": "run-aborted", "ff": ff}
+        ctx.evaluated((tag, ff, name, ph, "abort"), True)
+        ctx.fail(sig, f"{ff} {name} pH {ph}: run aborted after titration ({obs['exc']}; {obs.get('critical')})", case)
         return obs
+    resmap = {(x["chain"], x["seq"]): x for x in obs["residues"]}
     # -- nothing dropped because of titration
     bmiss = set(map(tuple, base.get("missing", []))) if base["exc"] is None else set()
-    extra = [m for m in obs["missing"] if tuple(m) not in bmiss]
     by_res = {}
-    for s, a in extra:
-        by_res.setdefault(s, []).append(a)
-    for s, names in by_res.items():
-        res = next(x for x in obs["residues"] if x["seq"] == s)
+    for c, n, a in (m for m in obs["missing"] if tuple(m) not in bmiss):
+        by_res.setdefault((c, n), []).append(a)
+    for k, names in by_res.items():
+        res = resmap[k]
         tp = [p for p in res["patches"] if p in TITR_PATCHES]
         l = probe.lost(ff, res["ffname"])
         if tp and (l is None or l):
             sig = {"defect": "unsupported-state-applied", "ff": ff, "group": res["name"], "patch": tp[-1], "pos": res["pos"], "effect": "residue-unassigned"}
         else:
             sig = {"defect": "atoms-dropped", "ff": ff, "residue": res["name"], "pos": res["pos"], "state": res["ffname"]}
-        ctx.fail(sig, f"{ff} {'-'.join(seq)} pH {ph}: residue {res['name']} {s} ({res['ffname']}, patches {res['patches']}) loses {len(names)} of {len(res['atoms'])} atoms that the untitrated run keeps", case)
+        ctx.fail(sig, f"{ff} {name} pH {ph}: residue {res['name']} {k[1]} {k[0]} ({res['ffname']}, patches {res['patches']}) loses {len(names)} of {len(res['atoms'])} atoms that the untitrated run keeps", case)
     # -- each group
     for r in rows:
-        g, i = r["_group"], r["res_num"] - 1
-        res = obs["residues"][i]
+        g = r["_group"]
+        res = resmap.get((r["chain_id"], r["res_num"]))
+        if res is None:
+            ctx.fail({"defect": "row-without-residue", "ff": ff}, f"{ff} {name}: pKa row {r['group_label']!r} matches no residue", case)
+            continue
+        if g not in ("N+", "C-") and res["name"] != g:
+            continue  # a residue pre-named in a variant state: no group of that name
+        if g == "CYS" and res["ss"]:
+            # a cysteine in a disulfide bridge is not titratable: it must stay CYX whatever the table says
+            ctx.evaluated(f"{ff}:CYS-bridged:{res['pos']}", True)
+            if split_ffname(res["ffname"])[1] != "CYX" or "HG" in res["atoms"]:
+                ctx.fail({"defect": "bridged-cys-titrated", "ff": ff, "pos": res["pos"]}, f"{ff} {name} pH {ph}: bridged CYS {res['seq']} {res['chain']} became {res['ffname']} (patches {res['patches']})", case)
+            continue
         wanted = phd < Decimal(r["_dec"])
         default = DEFAULT_PROT[g]
         got = observed_protonated(g, res)
@@ -596,13 +734,17 @@ def judge_run(ctx, probe, seq, ff, ph, rows, tag):
         nontrivial = wanted != default
         ctx.evaluated(f"{ff}:{g}:{res['pos']}:{side}", nontrivial)
         ctx.count(f"e2e:{ff}:{'switch' if nontrivial else 'keep'}")
+        if g == "HIS":
+            hb = split_ffname(res["ffname"])[1]
+            if (got and hb != "HIP") or (not got and hb not in ("HID", "HIE")):
+                ctx.fail({"defect": "his-name", "ff": ff, "pos": res["pos"]}, f"{ff} {name} pH {ph}: HIS {res['seq']} is {'protonated' if got else 'neutral'} but named {res['ffname']}", case)
         if not nontrivial:
             if got != default:
                 ctx.fail({"defect": "wrong-state", "ff": ff, "group": g, "pos": res["pos"], "side": side, "expected": "default"}, f"{ff} {g} at {res['pos']} pH {ph} pKa {r['_dec']}: default state expected, group is {'protonated' if got else 'deprotonated'}", case)
             continue
         wname, dname = state_names(g, res, wanted)
         sup = probe.supported_vs(ff, wname, dname) if wname else False
-        key = key_term(g, res["seq"], "A") if g in ("N+", "C-") else key_side(res["name"], res["seq"], "A")
+        key = key_term(g, res["seq"], res["chain"]) if g in ("N+", "C-") else key_side(res["name"], res["seq"], res["chain"])
         warned = any(key in w for w in obs["warnings"])
         bad = None
         if sup and got != wanted:
@@ -619,20 +761,22 @@ def judge_run(ctx, probe, seq, ff, ph, rows, tag):
             tp = [p for p in res["patches"] if p in TITR_PATCHES]
             sig = {"defect": "unsupported-state-applied", "ff": ff, "group": g, "patch": tp[-1] if tp else "?", "pos": res["pos"], "effect": "state"}
         else:
-            sig = {"defect": bad, "ff": ff, "group": g, "pos": res["pos"], "side": side, "wanted_state": wname, "supported": sup}
-        ctx.fail(sig, f"{ff} {g} at {res['pos']} pH {ph} pKa {r['_dec']}: wanted {'protonated' if wanted else 'deprotonated'} ({wname}, parameterisable={sup}); observed {'protonated' if got else 'deprotonated'} as {res['ffname']}, warned={warned} -> {bad}", case)
+            sig = {"defect": bad, "ff": ff, "group": g, "pos": res["pos"], "side": side, "wanted_state": wname, "supported": sup,
+                   "numbering": "wide" if (res["seq"] >= 1000 or res["seq"] <= -100) else "plain"}
+        ctx.fail(sig, f"{ff} {name}: {g} {res['seq']} {res['chain']} at {res['pos']} pH {ph} pKa {r['_dec']}: wanted {'protonated' if wanted else 'deprotonated'} ({wname}, parameterisable={sup}); observed {'protonated' if got else 'deprotonated'} as {res['ffname']}, warned={warned}, dict keys passed {sorted(obs['cap'].get('dict', {}))[:6]} -> {bad}", case)
     # -- charge: integral and equal to the chemistry of the observed states
     if not obs["missing"]:
         exp = 0
-        for k, res in enumerate(obs["residues"]):
-            if res["name"] in DEFAULT_PROT:
-                exp += PROT_CHARGE[res["name"]] - (0 if observed_protonated(res["name"], res) else 1)
+        for res in obs["residues"]:
+            g = VARIANT_OF.get(res["name"], res["name"])
+            if g in DEFAULT_PROT and not (g == "CYS" and res["ss"]):
+                exp += PROT_CHARGE[g] - (0 if observed_protonated(g, res) else 1)
             if res["pos"] in ("N", "NC"):
                 exp += PROT_CHARGE["N+"] - (0 if observed_protonated("N+", res) else 1)
             if res["pos"] in ("C", "NC"):
                 exp += PROT_CHARGE["C-"] - (0 if observed_protonated("C-", res) else 1)
         if abs(obs["charge"] - exp) > 1e-3:
-            ctx.fail({"defect": "charge-mismatch", "ff": ff}, f"{ff} {'-'.join(seq)} pH {ph}: PQR total charge {obs['charge']:.4f}, states say {exp}", case)
+            ctx.fail({"defect": "charge-mismatch", "ff": ff}, f"{ff} {name} pH {ph}: PQR total charge {obs['charge']:.4f}, states say {exp}", case)
     return obs
 
 
@@ -688,11 +832,15 @@ SWEEP_PEPTIDES = [
 ]
 
 
-def sweep(ctx, probe, seq, ff, phs):
-    pk = {(i, t): TYPICAL_PKA[t] for i, t in enumerate(seq) if t in TYPICAL_PKA}
-    pk[(0, "N+")] = TYPICAL_PKA["N+"]
-    pk[(len(seq) - 1, "C-")] = TYPICAL_PKA["C-"]
-    rows = make_rows(seq, pk)
+def sweep(ctx, probe, seq, ff, phs, real=False):
+    if real:
+        rows = "real"
+    else:
+        pk = {(i, t): TYPICAL_PKA[t] for i, t in enumerate(seq) if t in TYPICAL_PKA}
+        pk[(0, "N+")] = TYPICAL_PKA["N+"]
+        pk[(len(seq) - 1, "C-")] = TYPICAL_PKA["C-"]
+        rows = make_rows(seq, pk)
+    name = label_of(seq)
     prev = None
     for ph in phs:
         obs = judge_run(ctx, probe, seq, ff, ph, rows, "sweep")
@@ -704,14 +852,15 @@ def sweep(ctx, probe, seq, ff, phs):
             # diagnose: a residue unassigned in either run because of a titration patch
             sig = {"defect": "charge-increases", "ff": ff}
             for o in (obs, prev[2]):
-                for s_, _a in o["missing"]:
-                    res = next(x for x in o["residues"] if x["seq"] == s_)
+                for c_, s_, _a in o["missing"]:
+                    res = next(x for x in o["residues"] if x["seq"] == s_ and x["chain"] == c_)
                     tp = [p for p in res["patches"] if p in TITR_PATCHES]
                     l = probe.lost(ff, res["ffname"])
                     if tp and (l is None or l):
                         sig = {"defect": "unsupported-state-applied", "ff": ff, "group": res["name"], "patch": tp[-1], "pos": res["pos"], "effect": "charge-increases"}
-            ctx.fail(sig, f"{ff} {'-'.join(seq)}: total charge rises from {prev[1]:.3f} at pH {prev[0]} to {obs['charge']:.3f} at pH {ph}",
-                     {"kind": "sweep", "seq": list(seq), "ff": ff, "ph_lo": prev[0], "ph_hi": ph})
+            c = case_of(seq, ff, ph, [], real)
+            c.update({"kind": "sweep" if not isinstance(seq, Struct) else "struct-sweep", "ph_lo": prev[0], "ph_hi": ph, "real": real})
+            ctx.fail(sig, f"{ff} {name}: total charge rises from {prev[1]:.3f} at pH {prev[0]} to {obs['charge']:.3f} at pH {ph}", c)
         prev = (ph, obs["charge"], obs)
 
 
@@ -746,41 +895,47 @@ def check_rows_to_dict(ctx, runs_seen):
 
 
 def check_propka_labels(ctx):
-    """The stub's row layout (group_label, res_name) against one real PROPKA run,
-    and Model.Titration.propka_label against the same labels."""
+    """Real PROPKA runs on builder peptides with plain, 4-digit and negative residue
+    numbers: (i) the label layout used by the stub rows is DERIVED from these rows
+    (field widths solved from the observed labels), (ii) Model.Titration.propka_label
+    must give the same strings."""
+    global LABEL_W
     from harness import builder as B
 
-    seq = ["LYS", "ASP", "HIS", "CYS", "TYR", "GLU", "ARG"]
-    r = B.run_pdb2pqr(peptide_pdb(seq), ["--ff=PARSE", "--titration-state-method=propka", "--with-ph=7.0"], workdir=ctx.scratch_dir() / "propka")
-    if r["exc"] is not None or r["result"] is None:
-        ctx.broke("correspondence-broken", "real PROPKA run on a builder peptide failed", str(r["exc"]))
-        return False
-    rows = r["result"][1]
-    terms, exp = [], []
+    base = ["LYS", "ASP", "HIS", "CYS", "TYR", "GLU", "ARG"]
+    obs = []
+    for seq in (mkseq(base, 1, "A"), mkseq(base, 996, "B"), mkseq(base[:4], -102, "A")):
+        r = B.run_pdb2pqr(peptide_pdb(seq), ["--ff=PARSE", "--titration-state-method=propka", "--with-ph=7.0"], workdir=ctx.scratch_dir() / "propka")
+        if r["exc"] is not None or r["result"] is None:
+            ctx.broke("correspondence-broken", "real PROPKA run on a builder peptide failed", f"{label_of(seq)}: {r['exc']!r}")
+            return False
+        for row in r["result"][1]:
+            lab = row["group_label"]
+            rtype = lab[:3].strip() if lab[:2] in ("N+", "C-") else row["res_name"]
+            obs.append((rtype, int(row["res_num"]), row["chain_id"], lab, row["res_name"]))
+    sols = [(w1, w2, w3) for w1 in range(1, 7) for w2 in range(1, 9) for w3 in range(1, 5)
+            if all(f"{t:<{w1}s}{n:>{w2}d}{c:>{w3}s}" == lab for t, n, c, lab, _ in obs)]
     ok = True
-    for row in rows:
-        lab = row["group_label"]
-        rtype = lab[:3].strip()
-        stub = f"{rtype:<3s}{row['res_num']:>4d}{row['chain_id']:>2s}"
-        if stub != lab or (rtype not in ("N+", "C-") and rtype != row["res_name"]):
-            ok = False
-            ctx.broke("correspondence-broken", "stub rows vs real run_propka rows (label layout)", f"real label {lab!r} res_name {row['res_name']!r} num {row['res_num']} chain {row['chain_id']!r}; stub would write {stub!r}")
-        terms.append(f"propka_label {core.coq_string(rtype)} {core.coq_Z(row['res_num'])} {core.coq_string(row['chain_id'])}")
-        exp.append(lab)
+    if len(sols) != 1:
+        ok = False
+        ctx.broke("correspondence-broken", "PROPKA group labels do not follow one fixed-width layout", f"solutions {sols}; labels {[o[3] for o in obs][:12]}")
+    else:
+        LABEL_W = sols[0]
+    terms = [f"propka_label {core.coq_string(t)} {core.coq_Z(n)} {core.coq_string(c)}" for t, n, c, _l, _r in obs]
     try:
         res = core.run_cases("C06l", HEADER, terms, chunk=60)
     except core.CoqEvalError as e:
         ctx.broke("correspondence-broken", "propka_label: model evaluation failed", str(e))
         return False
-    for m, x in zip(res, exp):
+    for m, o in zip(res, obs):
         ctx.cov["correspondence_cases"] += 1
-        if m != x:
+        if m != o[3]:
             ok = False
             ctx.cov["correspondence_disagreements"] += 1
-            ctx.broke("correspondence-broken", "Model.Titration.propka_label vs PROPKA's Group.label", f"impl={x!r} model={m!r}")
-    kinds = sorted({row["group_label"][:3].strip() for row in rows})
-    ctx.count("propka:real-rows", len(rows))
-    ctx.notes.append(f"real PROPKA rows on {'-'.join(seq)}: {len(rows)} groups, label kinds {kinds}")
+            ctx.broke("correspondence-broken", "Model.Titration.propka_label vs PROPKA's Group.label", f"impl={o[3]!r} model={m!r}")
+    kinds = sorted({o[0] if o[0] in ("N+", "C-") else "side" for o in obs})
+    ctx.count("propka:real-rows", len(obs))
+    ctx.notes.append(f"real PROPKA rows: {len(obs)} groups, label widths {LABEL_W}, e.g. {[o[3] for o in obs if o[1] >= 1000 or o[1] < 0][:3]}")
     if "N+" not in kinds or "C-" not in kinds:
         ok = False
         ctx.broke("correspondence-broken", "real PROPKA no longer reports N+/C- groups", str(kinds))
@@ -814,23 +969,32 @@ def run_case(ctx, probe, case):
 
 
 def run_case_(ctx, probe, case):
-    if case["kind"] == "e2e":
-        seq = tuple(case["seq"])
-        rows = make_rows(seq, {(i, g): v for i, g, v in case["pkas"]})
+    if case["kind"] in ("e2e", "sweep"):
+        seq = mkseq(case["seq"], case.get("start", 1), case.get("chain", "A"), case.get("icode", ""))
+    elif case["kind"] in ("struct", "struct-sweep"):
+        seq = structures()[case["name"]]
+    if case["kind"] in ("e2e", "struct"):
+        if case.get("real"):
+            rows = "real"
+        elif case["kind"] == "e2e":
+            rows = make_rows(seq, {(i, g): v for i, g, v in case["pkas"]})
+        else:
+            rows = [{"res_num": n, "ins_code": " ", "res_name": rn, "chain_id": c, "group_label": propka_label_py(g if g in ("N+", "C-") else rn, n, c),
+                     "group_type": g, "pKa": float(v), "model_pKa": float(v), "buried": 0.0, "coupled_group": None, "_dec": v, "_group": g} for rn, n, c, g, v in case["rows"]]
         obs = judge_run(ctx, probe, seq, case["ff"], case["ph"], rows, "case")
         if case.get("expect") == "passes" and obs["exc"] is None:
             # regression of a repaired finding: all atoms kept, default state kept, warning logged
             for i, g, _v in case["pkas"]:
                 res = obs["residues"][i]
-                key = key_side(res["name"], res["seq"], "A")
-                okr = (not [m for m in obs["missing"] if m[0] == res["seq"]] and observed_protonated(g, res) == DEFAULT_PROT[g]
+                key = key_side(res["name"], res["seq"], res["chain"])
+                okr = (not [m for m in obs["missing"] if m[1] == res["seq"]] and observed_protonated(g, res) == DEFAULT_PROT[g]
                        and not [p for p in res["patches"] if p in OWN_PATCH.values()] and any(key in w for w in obs["warnings"]))
                 ctx.evaluated(("regression", case.get("regression_of")), True)
                 if not okr:
                     ctx.fail({"defect": "regression-of-fixed-finding", "ff": case["ff"], "group": g, "pos": res["pos"]},
                              f"regression case {case.get('regression_of')}: residue {res['name']} {res['seq']} is {res['ffname']} patches {res['patches']}, missing {obs['missing'][:3]}, warnings {obs['warnings'][:2]}", case)
-    elif case["kind"] == "sweep":
-        sweep(ctx, probe, tuple(case["seq"]), case["ff"], [case["ph_lo"], case["ph_hi"]])
+    elif case["kind"] in ("sweep", "struct-sweep"):
+        sweep(ctx, probe, seq, case["ff"], [case["ph_lo"], case["ph_hi"]], real=bool(case.get("real")))
     elif case["kind"] == "witness-keys":
         # Coq witness of C06_key_collision_refuted on the real function
         from harness import builder as B
@@ -858,7 +1022,10 @@ def run(ctx):
         "ALA, PRO) x 22 combinations of (N+, C-, side-chain) keys each absent / pKa above pH / equal / below, on the real apply_pka_values; "
         "random key cases (numbering, chain labels incl. blank, duplicate keys, malformed and stray keys); every reachable patch "
         "combination really applied and named. end to end (stubbed run_propka rows incl. N+/C- rows in PROPKA's layout): every side group x "
-        "4 positions x 2 sides x 6 force fields, termini at 3 pH values, pH == pKa, and pH sweeps of multi-group peptides; oracle = "
+        "4 positions x 2 sides x 6 force fields, termini at 3 pH values, pH == pKa, pH sweeps of multi-group peptides; peptides numbered "
+        "-105.., -2.., 997.., 9995.. and with an insertion code, chains A/B/C, with stub rows in PROPKA's own label layout (derived from real "
+        "rows each run) and with PROPKA itself; PROPKA sweeps of a two-chain structure, a disulfide pair (bridged CYS must stay CYX) and a "
+        "peptide with residues pre-named ASH/LYN/CYM/HIP/GLH/TYM; oracle = "
         "chemistry of the atoms present + direct look-ups in pdb2pqr's loaded force field. A group evaluation is non-trivial when "
         "pH vs pKa asks for the non-default state; distinct by (force field, group, position, side)"
     )
@@ -893,13 +1060,38 @@ def run(ctx):
                 seen.append((rows, obs["cap"]["dict"]))
                 if obs["cap"]["ff"] != ff.lower():
                     ctx.broke("correspondence-broken", "force-field name seen by apply_pka_values (ff_of_args)", f"--ff={ff} -> {obs['cap']['ff']!r}")
+    # residue numbers over the whole PDB range, chain ids, an insertion code: stub rows in PROPKA's layout and PROPKA itself
+    numbering = [mkseq(["ALA", "ASP", "HIS", "LYS", "ALA"], st, ch, ic) for st, ch, ic in ((-105, "A", ""), (-2, "B", ""), (997, "A", ""), (9995, "C", ""), (5, "A", "A"))]
+    for seq in numbering:
+        pk = {(1, "ASP"): "3.80", (2, "HIS"): "6.50", (3, "LYS"): "10.50", (0, "N+"): "8.00", (4, "C-"): "3.20"}
+        for ff in (("AMBER", "PARSE", "CHARMM") if not (ctx.thorough or hot) else FFS6):
+            for ph in ("2.00", "12.00"):
+                rows = make_rows(seq, pk)
+                obs = judge_run(ctx, probe, seq, ff, ph, rows, "numbering")
+                ctx.count("numbering:stub-runs")
+                if obs["cap"]:
+                    seen.append((rows, obs["cap"]["dict"]))
+        for ph in ("2.00", "12.00"):
+            judge_run(ctx, probe, seq, "PARSE", ph, "real", "numbering-real")
+            ctx.count("numbering:real-propka-runs")
+    # mixed structures with PROPKA itself: two chains, a disulfide, residues pre-named in a variant state
+    for st in structures().values():
+        for ff in (("AMBER", "PARSE") if not (ctx.thorough or hot) else FFS6):
+            sweep(ctx, probe, st, ff, ["1.00", "5.00", "7.50", "9.50", "11.50", "13.50"] if not ctx.thorough else [f"{x / 2:.2f}" for x in range(0, 29)], real=True)
+    # a pKa table that claims a bridged cysteine titrates: it must stay CYX
+    ds = structures()["disulfide"]
+    for ff in ("AMBER", "PARSE"):
+        rows = [{"res_num": 2, "ins_code": " ", "res_name": "CYS", "chain_id": "A", "group_label": propka_label_py("CYS", 2, "A"), "group_type": "CYS",
+                 "pKa": 8.0, "model_pKa": 8.0, "buried": 0.0, "coupled_group": None, "_dec": "8.00", "_group": "CYS"}]
+        judge_run(ctx, probe, ds, ff, "12.00", rows, "bridge")
     phs_q = ["0.00", "3.50", "4.20", "5.50", "7.50", "9.50", "11.50", "14.00"]
     phs_t = [f"{x / 4:.2f}" for x in range(0, 57)]
     peptides = list(SWEEP_PEPTIDES[:2])
     if ctx.thorough or hot:
         peptides = list(SWEEP_PEPTIDES)
         for _ in range(12 if ctx.thorough else 6):
-            peptides.append(tuple(ctx.rng.choice(TITRATABLE + ["ALA", "SER", "PRO", "GLY"]) for _ in range(ctx.rng.randint(2, 6))))
+            peptides.append(mkseq([ctx.rng.choice(TITRATABLE + ["ALA", "SER", "PRO", "GLY"]) for _ in range(ctx.rng.randint(2, 6))],
+                                  ctx.rng.choice([1, 1, -3, 998, 5000]), ctx.rng.choice(["A", "B", "Z"])))
     for seq in peptides:
         for ff in FFS6:
             sweep(ctx, probe, seq, ff, phs_t if ctx.thorough else phs_q)
